@@ -434,6 +434,8 @@ func runC13(c *Ctx) {
 	addersRule(c, "R-C13-PAIRADD")
 	applierArmsRule(c, "R-C13-ARMS")
 	accountingInvRule(c, "R-C13-ACCOUNT")
+	evictClearRule(c, "R-C13-CLEAR")
+	refusalsRule(c, "R-C13-PAIRADD", "Set") // store.Set refusing an admitted item for an undocumented reason leaves a charged key with no map entry
 	expIndexRule(c, "R-C13-EXPINDEX")
 	bucketIndexRule(c, "R-C13-EXPINDEX")
 	clearResetParts(c, "R-C13-CLEAR", "cache", "evict")
